@@ -37,7 +37,7 @@ LEVEL_TEXT = ("Complete enumeration of all ordered unions of 2 and 3 members of 
               "spellings, each applied to ~70 inputs in both directions and compared with the first-acceptor reference; "
               "length-4 unions sampled (quick) or enumerated (thorough).")
 LEVEL_NOTE = "trusts the member routines obtained independently via unmarshaller(A_i)/marshaller(A_i) as the reference's building blocks"
-EXHAUSTIVE_NOTE = "lengths 2 and 3: all 132 + 1320 permutations x None positions x spellings on every run; length 4 complete only in the thorough tier"
+EXHAUSTIVE_NOTE = "lengths 1 (Optional[X]), 2 and 3: all 132 + 1320 permutations x None positions x spellings on every run; length 4 complete only in the thorough tier"
 
 
 @dataclasses.dataclass
@@ -105,7 +105,7 @@ def union_expr(members, none_pos, spelling):
 
 def variants(members):
     k = len(members)
-    for none_pos in [None, *range(k + 1)]:
+    for none_pos in ([None] if k > 1 else []) + [*range(k + 1)]:
         for spelling in ("Union", "pipe"):
             yield none_pos, spelling
         if none_pos == k:
@@ -215,6 +215,30 @@ def check_union(members, none_pos, spelling, col, inputs_u=UNMARSHAL_INPUTS, inp
                               {"members": list(members), "none_pos": none_pos, "spelling": spelling, "direction": direction, "input": src, "api": True},
                               f"typelib.{direction}({expr}, {src}) -> {_d(got2)}, reference (member #{idx}) -> {_d(want)}",
                               bucket=f"api|{'raises' if got2[0] == 'exc' else 'returns'}|want-{'raises' if want[0] == 'exc' else 'returns'}|{got2[1] if got2[0] == 'exc' else ''}"[:100])
+    # the JSON route: typelib.decode / codec(T).decode of a document must say what unmarshal says about the decoded document
+    import json as _json
+    tl.clear_all()
+    for src in inputs_u:
+        x = fresh(src)
+        if type(x) not in (type(None), bool, int, float, str, list, dict) or (isinstance(x, float) and x != x):
+            continue
+        try:
+            doc = _json.dumps(x).encode()
+            if _json.loads(doc) != x or type(_json.loads(doc)) is not type(x) or abs(x if isinstance(x, (int, float)) and not isinstance(x, bool) else 0) >= 2 ** 53:
+                continue
+        except Exception:
+            continue
+        want, idx, _rej = reference(members, none_pos, src, "unmarshal")
+        for route, f in (("typelib.decode", lambda: tl.typelib.decode(T, doc)), ("codec.decode", lambda: tl.codec(T).decode(doc))):
+            col.ev()
+            col.label("route:" + route)
+            k3, v3 = tl.call(f)
+            got3 = ("ok", snapshot(v3)) if k3 == "ok" else ("exc", tl.exc_name(v3))
+            if got3 != want:
+                col.violation("unmarshal-first-acceptor",
+                              {"members": list(members), "none_pos": none_pos, "spelling": spelling, "direction": "unmarshal", "input": src, "route": route},
+                              f"{route}({expr}, {doc!r}) -> {_d(got3)}, reference (member #{idx}) -> {_d(want)}",
+                              bucket=f"{route}|{'raises' if got3[0] == 'exc' else 'returns'}|want-{'raises' if want[0] == 'exc' else 'returns'}")
     col.label(f"len:{len(members)}")
     col.label(f"spelling:{spelling}")
     col.label("none:absent" if none_pos is None else ("none:last" if none_pos == len(members) else "none:not-last"))
@@ -264,6 +288,7 @@ def all_unions(k):
 
 def plan(tier, seed):
     shards = []
+    shards.append({"kind": "exhaustive", "k": 1, "mod": 1, "rem": 0})   # Optional[X] in every spelling: one member next to None
     for k in (2, 3):
         for i in range(16 if k == 3 else 4):
             shards.append({"kind": "exhaustive", "k": k, "mod": 16 if k == 3 else 4, "rem": i})
